@@ -1,7 +1,12 @@
 (* Check_C16.v — results do not depend on thread count, load order or hash seeds: the id-free
    view of everything the server answers, dumped by several separate processes that loaded the
    same library with different rayon pool sizes and insertion orders, must be identical; the
-   first dump is also compared with the model's import of the same notes. *)
+   first dump is also compared with the model's import of the same notes.
+   A LARGE library (d_big <> 0: >= 1100 tiny notes with many equal titles and sub-headings, so that the
+   path list is cut into several rayon slices and tied hits lie in different slices) carries only the
+   cheap part of the dump: if_paths = [number of outline paths], if_search = "query|key|text" of the
+   first 100 hits of a few queries, in order; the other fields are empty and there is no model run
+   (d_notes = []), so sub-properties 5 and 6 are the ones that can fire on it. *)
 From IweV Require Export Check_Hist Determinism.
 Local Open Scope string_scope.
 Local Open Scope list_scope.
@@ -11,7 +16,8 @@ Record c16case := C16C {
   d_notes : list note_in;
   d_tables : list (string * list string);
   d_dumps : list (option idfree);
-  d_exports : list (list (string * string))
+  d_exports : list (list (string * string));
+  d_big : N   (* 0 for an ordinary library; number of outline paths (first process) of a large one *)
 }.
 
 Definition idfree_diff (a b : idfree) : list N :=
@@ -60,5 +66,13 @@ Definition c16_corr (c : c16case) : list N :=
   | Ok _, _ => [1%N]
   end.
 
+(* a large library is non-trivial when its path list is long enough for four slices of 256 entries
+   and the first process dumped more than 100 hits (more than one query answered in full) *)
+Definition c16_big_nontriv (c : c16case) : bool :=
+  N.leb 1024 (d_big c) &&
+  match d_dumps c with Some d0 :: _ => Nat.ltb 100 (length (if_search d0)) | _ => false end.
+
 Definition run_C16 (c : c16case) : verdict :=
-  V (c16_corr c) (c16_props c) [] (Nat.ltb 1 (length (d_notes c))).
+  V (if N.eqb (d_big c) 0 then c16_corr c else [])
+    (c16_props c) []
+    (if N.eqb (d_big c) 0 then Nat.ltb 1 (length (d_notes c)) else c16_big_nontriv c).
